@@ -75,11 +75,13 @@ UNITS = {
             child_mod("clock-bound-shm/src/writer.rs", "verif_write"),
             Edit("clock-bound-shm/src/writer.rs", "            self.ceb.write(*ceb);\n", "before",
                  "            #[cfg(kani)]\n            verif_write::at_copy(self, 0);\n",
-                 why="ghost probe: stored generation just before the record copy"),
+                 why="ghost probe: stored generation just before the record copy", probe_group="write_probes"),
             Edit("clock-bound-shm/src/writer.rs", "            self.ceb.write(*ceb);\n", "after",
                  "            #[cfg(kani)]\n            verif_write::at_copy(self, 1);\n",
-                 why="ghost probe: stored generation just after the record copy"),
+                 why="ghost probe: stored generation just after the record copy", probe_group="write_probes"),
         ],
+        "probe_guards": {"write_probes": ["C11.write.gen_odd_before_copy", "C11.write.gen_odd_after_copy", "C11.write.copy_probes_reached",
+                                          "C11.write.gen_stable_during_copy", "C11.write.odd_value_adopted_or_incremented"]},
     },
     "shm_read": {
         "crate": "clock-bound-shm", "features": "writer",
@@ -87,18 +89,23 @@ UNITS = {
         "edits": [
             child_mod("clock-bound-shm/src/reader.rs", "verif_read"),
             Edit("clock-bound-shm/src/reader.rs", "        let version = version.load(atomic::Ordering::Acquire);\n", "before",
-                 "        #[cfg(kani)]\n        verif_read::environment_step();\n", why="environment step before the version load"),
+                 "        #[cfg(kani)]\n        verif_read::environment_step();\n", why="environment step before the version load", probe_group="read_probes"),
             Edit("clock-bound-shm/src/reader.rs", "        let mut first_gen = generation.load(atomic::Ordering::Acquire);\n", "before",
-                 "        #[cfg(kani)]\n        verif_read::environment_step();\n", why="environment step before the first generation load"),
+                 "        #[cfg(kani)]\n        verif_read::environment_step();\n", why="environment step before the first generation load", probe_group="read_probes"),
             Edit("clock-bound-shm/src/reader.rs", "            let snapshot = unsafe { self.ceb_shm.read_volatile() };\n", "before",
                  "            #[cfg(kani)]\n            {\n                verif_read::environment_step();\n                verif_read::at_record_read();\n            }\n",
-                 why="environment step + ghost counter before the record copy"),
+                 why="environment step + ghost counter before the record copy", probe_group="read_probes"),
             Edit("clock-bound-shm/src/reader.rs", "            let second_gen = generation.load(atomic::Ordering::Acquire);\n", "before",
-                 "            #[cfg(kani)]\n            verif_read::environment_step();\n", why="environment step before the second generation load"),
+                 "            #[cfg(kani)]\n            verif_read::environment_step();\n", why="environment step before the second generation load", probe_group="read_probes"),
             Edit("clock-bound-shm/src/reader.rs", "        let mut retries = 1_000_000;\n", "replace",
                  "        #[cfg(not(kani))]\n        let mut retries = 1_000_000;\n        #[cfg(kani)]\n        let mut retries = verif_read::retry_budget();\n",
-                 why="retry budget: unchanged (1 000 000) unless the adversarial harness is running, then 3 (bounded stand-in for C18)"),
+                 why="retry budget: unchanged (1 000 000) unless the adversarial harness is running, then 3 (bounded stand-in for C18)",
+                 probe_group="read_probes"),
         ],
+        "probe_guards": {"read_probes": ["C18.snapshot.one_read_when_quiescent", "C18.snapshot.early_return_without_reading",
+                                         "C18.snapshot.record_reads_bounded_by_budget", "C18.snapshot.shared_accesses_bounded_by_budget",
+                                         "C18.snapshot.accepts_only_even_generation", "C18.snapshot.error_kind_after_budget",
+                                         "C18.snapshot.error_only_after_full_budget"]},
     },
     # a cfg(kani)-only public accessor so that harnesses in OTHER crates can look at the private fields
     # of a record / the cache state of a reader instead of trusting the crate's own constructor or ==
@@ -207,6 +214,16 @@ pub(crate) fn reader_for_harness(base: *mut u8) -> ShmReader {
         "files": [("clock-bound-d/src/verif_poller.rs", "harness/clock-bound-d/verif_poller.rs")],
         "edits": [child_mod("clock-bound-d/src/chrony_poller.rs", "verif_poller")],
     },
+    "d_phc_search": {
+        "crate": "clock-bound-d", "features": None,
+        "files": [("clock-bound-d/src/verif_search_phc.rs", "harness/clock-bound-d/verif_search_phc.rs")],
+        "edits": [child_mod_cfg("clock-bound-d/src/chrony_poller.rs", "verif_search_phc", "verif_search")],
+    },
+    "d_restart_search": {
+        "crate": "clock-bound-d", "features": None,
+        "files": [("clock-bound-d/src/verif_search_restart.rs", "harness/clock-bound-d/verif_search_restart.rs")],
+        "edits": [child_mod_cfg("clock-bound-d/src/shm_writer.rs", "verif_search_restart", "verif_search")],
+    },
     "d_extract_search": {
         "crate": "clock-bound-d", "features": None,
         "files": [("clock-bound-d/src/verif_search_extract.rs", "harness/clock-bound-d/verif_search_extract.rs")],
@@ -250,13 +267,21 @@ COMPUTE_SEARCH = {"kind": "search", "crate": "clock-bound-shm", "units": ["shm_c
                   "test": "verif_search_compute"}
 
 
-def compute_groups(pattern):
-    return [
+NOW_GRP = {"kind": "kani", "crate": "clock-bound-shm", "units": ["shm_now"], "modpath": "verif_now",
+           "harnesses": [{"name": "c12_now_reads_realtime_then_monotonic", "file": "harness/clock-bound-shm/verif_now.rs", "replayable": False,
+                          "tier": "quick", "timeout": 600}]}
+
+
+def compute_groups(pattern, with_now=False):
+    g = [
         {"kind": "verus", "gen": "compute", "obligations": [pattern, r"NIX\..*"], "rlimit": 30, "float_dependent": FLOAT_DEP,
          "float_shape_clause": "C05.compute.exact",
          "float_dependent_if_shape_lost": ["C05.compute.ordered", "C14.compute.no_panic"],
          "pair": COMPUTE_SEARCH},
     ]
+    if with_now:
+        g.append(NOW_GRP)   # the public wrapper now(): both clocks read, in order, for every record
+    return g
 
 
 COMPUTE_FUNCS = ["clock_bound_shm::ClockErrorBound::compute_bound_at (verbatim body, Verus)",
@@ -285,6 +310,12 @@ SHM_WRITE_GRP = {"kind": "kani", "crate": "clock-bound-shm", "units": ["shm_writ
 SHM_READ_GRP = {"kind": "kani", "crate": "clock-bound-shm", "units": ["shm_read"], "modpath": "reader::verif_read"}
 SHM_HDR_GRP = {"kind": "kani", "crate": "clock-bound-shm", "units": ["shm_header"], "modpath": "shm_header::verif_header"}
 C11_WRITE = sh("c11_write_contract", WR, also=["C11.write.gen_odd_before_copy", "C11.write.gen_odd_after_copy"], timeout=300)
+QUIESCENT_H = sh("c03_snapshot_quiescent", RD,
+                 unwind_obligation="C18.snapshot.quiescent_call_leaves_the_retry_loop_in_its_first_iteration")
+# the same harness as used by C03 / C04: only their own clauses count there (the C18 read-count clauses
+# depend on optional ghost probes)
+QUIESCENT_H_C03 = dict(QUIESCENT_H, only=r"C03\.|C04\.|C18\.snapshot\.quiescent_call")
+SNAPSHOT_VERUS = {"kind": "verus", "gen": "snapshot", "obligations": [r"C18\.verus\..*"], "rlimit": 30}
 OPEN_H = sh("c16_open_any_file", RD, replayable=False, timeout=900)
 PROBE_H = sh("c16_usability_probe_agrees_with_client_open", WR, replayable=False, timeout=900)
 WIPE_NATIVE = {"kind": "native", "crate": "clock-bound-shm", "units": ["shm_wipe_search"], "features": "writer", "test": "verif_search_wipe",
@@ -316,6 +347,14 @@ def lemmas(*patterns):
 A_LEMMA = ("the spec functions of verus/lemmas.rs.tmpl (next_gen_spec, snapshot_step, upd_step/published, the hypotheses of lemma_c01_containment) restate the postconditions "
            "discharged on the real code by the named Kani/Verus obligations; the restatement is by hand except next_gen, whose Kani oracle text is verified against the spec function")
 
+PHC_NATIVE = {"kind": "native", "crate": "clock-bound-d", "units": ["d_phc_search"], "features": None, "test": "verif_search_phc",
+              "bound": "71 values (0, +-small, every power of ten up to 10^18 with its neighbours, 2^32 neighbourhood, 2^40, i64::MIN/MAX) x 4 textual forms, on real files",
+              "obligations": ["C07.phc.file_value_returned_exactly", "C13.phc.missing_file_is_an_error"]}
+
+RESTART_NATIVE = {"kind": "native", "crate": "clock-bound-d", "units": ["d_restart_search"], "features": None, "test": "verif_search_restart",
+                  "bound": "8 histories of a first daemon incarnation (never synchronised / synchronised then lost) x 9 sequences of 1-2 non-synchronised outcomes of the restarted daemon, real ShmWriter on a real file",
+                  "obligations": ["C09.restart.no_trust_before_first_sync_of_the_new_incarnation"]}
+
 DGRP = {"kind": "kani", "crate": "clock-bound-d", "units": ["shm_pub", "d_nolog", "d_updater"], "modpath": "shm_writer::verif_updater"}
 PGRP = {"kind": "kani", "crate": "clock-bound-d", "units": ["d_nolog", "d_poller"], "modpath": "chrony_poller::verif_poller"}
 POL = "harness/clock-bound-d/verif_poller.rs"
@@ -344,6 +383,9 @@ PROPS = {
                                  "C07.extract.rounded_up_by_less_than_1ns", "C07.extract.body_obligations"],
              "pair": {"kind": "search", "crate": "clock-bound-d", "units": ["d_extract_search"], "features": None, "test": "verif_search_extract"}},
             dict(DGRP, harnesses=[dh("c07_nonneg"), dh("c08_update_step", obligations=["C07.update.phc_added", "C08.update.one_publication"])]),
+            dict(PGRP, harnesses=[{"name": "c13_poller_iteration", "file": POL, "replayable": False, "tier": "quick", "timeout": 900,
+                                   "only": r"C13\.select\.(phc_|report_with|report_without)"}]),
+            PHC_NATIVE,
         ],
     },
     "C08": {
@@ -360,6 +402,7 @@ PROPS = {
         "trusted": ["harness/clock-bound-d/verif_updater.rs (untrusted_record oracle)"],
         "groups": [dict(DGRP, harnesses=[dh("c08_new_initial_state"), dh("c09_fresh_then_nonsync"), dh("c09_nonsync_absorbing")]),
                    dict(PGRP, harnesses=[{"name": "c13_starts_outside_grace", "file": POL, "replayable": False, "tier": "quick", "timeout": 600}]),
+                   RESTART_NATIVE,
                    lemmas(r"C08\.lemma\..*")],
     },
     "C19": {
@@ -407,6 +450,8 @@ PROPS = {
         "trusted": ["verus/lemmas.rs.tmpl"],
         "groups": [
             lemmas(r"C01\.lemma\..*", r"C08\.lemma\..*"),
+            SNAPSHOT_VERUS,
+            dict(SHM_READ_GRP, harnesses=[QUIESCENT_H_C03]),
             {"kind": "verus", "gen": "compute", "obligations": [r"C05\.compute\.(never_less|symmetric|exact|ok)", r"C06\.compute\.(sync_only_if|free_only_if|unknown_sticky|void_is_unknown|status_law)", r"NIX\..*"],
              "rlimit": 30, "float_dependent": FLOAT_DEP, "float_shape_clause": "C05.compute.exact",
              "float_dependent_if_shape_lost": ["C05.compute.ordered", "C14.compute.no_panic"], "pair": COMPUTE_SEARCH},
@@ -428,7 +473,7 @@ PROPS = {
         "functions": COMPUTE_FUNCS,
         "assumptions": [A["tools"], A["float"], A["extract"], A["weaver"]],
         "trusted": COMPUTE_TRUSTED,
-        "groups": compute_groups(r"C05\..*"),
+        "groups": compute_groups(r"C05\..*", with_now=True),
     },
     "C06": {
         "functions": COMPUTE_FUNCS,
@@ -440,13 +485,16 @@ PROPS = {
         "functions": COMPUTE_FUNCS,
         "assumptions": [A["tools"], A["float"], A["extract"], A["weaver"]],
         "trusted": COMPUTE_TRUSTED,
-        "groups": compute_groups(r"C14\..*"),
+        "groups": compute_groups(r"C14\..*", with_now=True),
     },
     "C11": {
         "functions": ["clock_bound_shm::writer::<ShmWriter as ShmWrite>::write"],
         "assumptions": [A["tools"], A["seq_atomics"], A["weaver"]],
         "trusted": ["tools/weave (vlib.Workspace.apply)", "harness/clock-bound-shm/verif_write.rs (oracle next_gen, Seg layout)"],
-        "groups": [dict(SHM_WRITE_GRP, harnesses=[C11_WRITE]), lemmas(r"C11\.lemma\..*")],
+        "groups": [dict(SHM_WRITE_GRP, harnesses=[C11_WRITE, sh("c04_new_takeover_or_wipe", WR, replayable=False)]),
+                   dict(SHM_WRITE_GRP, c_lib=POSIX, harnesses=[PROBE_H]),
+                   dict(SHM_READ_GRP, c_lib=POSIX, harnesses=[OPEN_H]),
+                   lemmas(r"C11\.lemma\..*")],
     },
     "C03": {
         "functions": ["clock_bound_shm::reader::ShmReader::snapshot", "clock_bound_shm::writer::<ShmWriter as ShmWrite>::write"],
@@ -454,7 +502,8 @@ PROPS = {
                         "call granularity only: the segment does not change while a snapshot call executes ('no update is in flight'); calls overlapping an update are C02's quantifier and are not covered",
                         "snapshot's retry loop is unwound twice with the unwinding assertion on (with a quiescent segment the first iteration returns)"],
         "trusted": ["harness/clock-bound-shm/verif_read.rs (Seg layout, reader_over)"],
-        "groups": [dict(SHM_READ_GRP, harnesses=[sh("c03_snapshot_quiescent", RD)]),
+        "groups": [dict(SHM_READ_GRP, harnesses=[QUIESCENT_H_C03]),
+                   SNAPSHOT_VERUS,
                    dict(SHM_WRITE_GRP, harnesses=[C11_WRITE, sh("c16_write_then_fresh_snapshot_roundtrip", WR)]),
                    lemmas(r"C03\.lemma\..*", r"C11\.lemma\..*")],
     },
@@ -465,7 +514,8 @@ PROPS = {
                         "crash *states*, not schedules: every prefix of write leaves (generation odd, record arbitrary) or (generation even, record complete) [C11 probes]; every prefix of wipe "
                         "leaves a prefix of (magic, size, version 0, generation 0, zeros), a subset of 'any bytes'; interleavings of the restarted writer with concurrent reader calls are not covered (C02)"],
         "trusted": ["harness/clock-bound-shm/verif_write.rs, verif_read.rs, posix_model.c"],
-        "groups": [dict(SHM_READ_GRP, harnesses=[sh("c03_snapshot_quiescent", RD)]),
+        "groups": [dict(SHM_READ_GRP, harnesses=[QUIESCENT_H_C03]),
+                   SNAPSHOT_VERUS,
                    dict(SHM_READ_GRP, c_lib=POSIX, harnesses=[OPEN_H]),
                    dict(SHM_WRITE_GRP, c_lib=POSIX, harnesses=[PROBE_H]),
                    WIPE_NATIVE,
@@ -516,7 +566,8 @@ PROPS = {
         "trusted": ["harness/clock-bound-d/verif_poller.rs"],
         "groups": [dict(PGRP, harnesses=[{"name": n, "file": POL, "replayable": False, "tier": "quick", "timeout": 900}
                                          for n in ("c13_poller_iteration", "c13_grace_period_law", "c13_starts_outside_grace",
-                                                   "c13_get_tracking_stamps_only_good_answers")])],
+                                                   "c13_get_tracking_stamps_only_good_answers")]),
+                   PHC_NATIVE],
     },
     "C17": {
         "functions": ["#[repr(C)] clock_bound_shm::{ShmHeader, ClockErrorBound, ClockStatus}", "clock_bound_shm::writer::ShmWriter::segment_size",
@@ -553,12 +604,15 @@ PROPS = {
         "functions": ["clock_bound_shm::reader::ShmReader::snapshot"],
         "assumptions": [A["tools"], A["seq_atomics"], A["weaver"],
                         "adversarial writer modelled by woven environment steps that overwrite version, generation and record with nondeterministic values before every shared access",
-                        "BOUNDED: the retry budget literal is overridden to 3 in the adversarial harness and the loop fully unwound; the loop body does not mention the budget, retries is "
-                        "decremented exactly once per iteration and never otherwise assigned (syntactic), so the work bound scales to 1 000 000; Kani's loop contracts were tried and do not go through "
-                        "in this version (write-set failures), termination itself is not proved by Kani"],
-        "trusted": ["harness/clock-bound-shm/verif_read.rs (environment_step, ghost counters)"],
-        "groups": [dict(SHM_READ_GRP, harnesses=[sh("c03_snapshot_quiescent", RD),
+                        "UNBOUNDED (Verus): snapshot's verbatim body with the shared segment replaced by external functions without postconditions (every load / record copy may return anything): the call "
+                        "terminates - the retry loop has the strictly decreasing measure `retries`, starting at the budget 1 000 000 - never panics or overflows, and fails only with SegmentNotInitialized; "
+                        "rewrites: the two `unsafe { &*self.x }` dereferences and the `unsafe { ..read_volatile() }` block (stand-in calls), and the spliced loop contract",
+                        "BOUNDED (Kani, not counted as proved): the per-call access counts on the woven real code with the retry budget overridden to 3 and the loop fully unwound"],
+        "trusted": ["harness/clock-bound-shm/verif_read.rs (environment_step, ghost counters)", "verus/snapshot.rs.tmpl (stand-ins for the shared segment)", "tools/verus_gen.py gen_snapshot (3 rewrites + loop contract)"],
+        "groups": [SNAPSHOT_VERUS,
+                   dict(SHM_READ_GRP, harnesses=[QUIESCENT_H,
                                                  sh("c18_snapshot_adversarial_bounded", RD, replayable=False,
+                                                    unwind_obligation="C18.snapshot.no_loop_beyond_the_retry_budget",
                                                     completeness="bounded: retry budget overridden to 3 (real: 1 000 000), loop fully unwound")])],
     },
 }
